@@ -100,7 +100,7 @@ func (fr *Frame) staticCall(st *State, callee *ssa.Function, args []Val, binding
 	}
 	fc := vc.prog.cs.Funcs[key]
 	top := fr.top()
-	useContract := fc != nil && !fc.Inline && (len(fc.Requires) > 0 || len(fc.Ensures) > 0 || fc.Extern || fc.Trusted || len(fc.Modifies) > 0 || fc.ModAll || fc.Pure)
+	useContract := fc != nil && !fc.Inline && fc.applicable(top.view)
 	if top.lockOnly && callee.Blocks != nil && strings.HasPrefix(pkgPathOf(callee), "github.com/whatap/golib") {
 		useContract = false // lock discipline is tracked through bodies
 	}
@@ -1104,7 +1104,7 @@ func (fr *Frame) callWrites(w *writeSet, c *ssa.CallCommon, seen map[*ssa.Functi
 			fc = vc.prog.cs.Funcs[key]
 		}
 	}
-	useContract := fc != nil && !fc.Inline && (len(fc.Requires) > 0 || len(fc.Ensures) > 0 || fc.Extern || fc.Trusted || len(fc.Modifies) > 0 || fc.ModAll || fc.Pure)
+	useContract := fc != nil && !fc.Inline && fc.applicable(fr.top().view)
 	if fr.top().lockOnly && callee != nil && callee.Blocks != nil && strings.HasPrefix(pkgPathOf(callee), "github.com/whatap/golib") {
 		useContract = false
 	}
@@ -1171,6 +1171,15 @@ func (fr *Frame) staticType(e Expr, ptypes map[string]types.Type, pkg *types.Pac
 	case *EIdent:
 		if t, ok := ptypes[x.Name]; ok {
 			return t
+		}
+	case *ECall:
+		// ptrof(iface, "*pkg.T"): the static type is the named one (so that `modifies ptrof(e, "*T").f` havocs only T.f at loop heads)
+		if id, ok := x.Fn.(*EIdent); ok && id.Name == "ptrof" && len(x.Args) == 2 {
+			if s, ok := x.Args[1].(*EStr); ok {
+				if t := fr.vc.prog.typeByString(s.Val, pkg); t != nil {
+					return t
+				}
+			}
 		}
 	case *ESel:
 		bt := fr.staticType(x.X, ptypes, pkg)
